@@ -48,6 +48,8 @@ def alphabet():
             ["replace_item", 0, "H", False]]
     ops += [["delete_ix", i] for i in (0, -1, 2, -4)]
     ops += [["delete_mnem", m] for m in ("A", "A:1", "a", "UNKNOWN", "ZZ")]
+    # both selectors given: "the index takes precedence over the mnemonic" (the mnemonic may name another curve, or none)
+    ops += [["delete_both", "A", 0], ["delete_both", "ZZ", -1], ["delete_both", "B", 1], ["update_both", "A", 0, "a"], ["update_both", "ZZ", 1, "udv"]]
     # flags: a = array, u = unit, d = descr, v = value
     ops += [["update_ix", 0, "a"], ["update_ix", -1, "udv"], ["update_ix", 4, "a"]]
     ops += [["update_mnem", "A:2", "au"], ["update_mnem", "B", "a"], ["update_mnem", "zz", "a"]]
@@ -95,6 +97,12 @@ def with_values(seq):
             f = op[2]
             out.append([k, op[1], arr(c, n) if "a" in f else None, ("U%d" % c) if "u" in f else None,
                         ("D%d" % c) if "d" in f else None, ("V%d" % c) if "v" in f else None])
+        elif k == "update_both":
+            f = op[3]
+            out.append(["update_ix", op[2], arr(c, n) if "a" in f else None, ("U%d" % c) if "u" in f else None,
+                        ("D%d" % c) if "d" in f else None, ("V%d" % c) if "v" in f else None, op[1]])   # 7th element: a mnemonic passed as well
+        elif k == "delete_both":
+            out.append(["delete_ix", op[2], op[1]])       # 3rd element: a mnemonic passed as well (real side only)
         elif k == "setitem_curve":
             out.append([k, op[1], [op[2], useful(op[2]), "u%d" % c, "v%d" % c, "d%d" % c, arr(c, n)]])
         elif k == "setitem_data":
@@ -124,6 +132,10 @@ def with_values_alias(seq):
 
 
 def model_op(op):
+    if op[0] == "delete_ix":
+        return op[:2]
+    if op[0] == "update_ix":
+        return op[:6]
     return op[:4] if op[0] == "set_data" else op
 
 
@@ -195,7 +207,10 @@ def apply_real(las, op):
         elif k == "replace_item":
             las.replace_curve_item(op[1], mk_item(op[2], op[3]))
         elif k == "delete_ix":
-            las.delete_curve(ix=op[1])
+            if len(op) > 2:
+                las.delete_curve(mnemonic=op[2], ix=op[1])
+            else:
+                las.delete_curve(ix=op[1])
         elif k == "delete_mnem":
             las.delete_curve(mnemonic=op[1])
         elif k in ("update_ix", "update_mnem"):
@@ -208,7 +223,9 @@ def apply_real(las, op):
                 kw["descr"] = op[4]
             if op[5] is not None:
                 kw["value"] = op[5]
-            if k == "update_ix":
+            if k == "update_ix" and len(op) > 6:
+                las.update_curve(mnemonic=op[6], ix=op[1], **kw)
+            elif k == "update_ix":
                 las.update_curve(ix=op[1], **kw)
             else:
                 las.update_curve(mnemonic=op[1], **kw)
